@@ -1,7 +1,6 @@
 import SeqVerif.Model.BulkConfig
 import SeqVerif.Model.BulkMeta
 import SeqVerif.Model.BulkResponse
-import SeqVerif.Extracted.C10
 import SeqVerif.Model.WPBytes
 import SeqVerif.Model.Repetitions
 import SeqVerif.Model.C03Docs
@@ -12,19 +11,12 @@ import SeqVerif.Model.Agg
 import SeqVerif.Model.Cache
 import SeqVerif.Model.FracInfo
 import SeqVerif.Model.Collector
-import SeqVerif.Extracted.C01
-import SeqVerif.Extracted.C03
-import SeqVerif.Extracted.C04
-import SeqVerif.Extracted.C06
-import SeqVerif.Extracted.C14
-import SeqVerif.Extracted.C17
-import SeqVerif.Extracted.C18
 /-!
 # Consistency wave 2 (topic c): `IngestorConfig.setDefaults` (Model/BulkConfig.lean, C10) vs the consumers of the two
 drifts, and constants that are written down in more than one model / extracted file
 
 * Go `proxyapi/ingestor_config.go:29-42` `setDefaults` tests exactly `API.SearchTimeout == 0`, `API.ExportTimeout == 0`,
-  `Bulk.MaxInflightBulks == 0`; `SV.Bulk.setDefaults` is that (also re-checked by `c10_x_set_defaults`).  The drifts
+  `Bulk.MaxInflightBulks == 0`; `SV.Bulk.setDefaults` is that (re-checked on every run by `c10_x_set_defaults`).  The drifts
   come from the flags `--allowed-time-drift` (default 24h) / `--future-allowed-time-drift` (default 5m)
   (cmd/seq-db/flags.go:95-96, kingpin `Duration()`), are never validated, and reach `newBulkProcessor` unchanged
   (proxy/bulk/ingestor.go:318).  No Lean model assumes a default drift.  A NEGATIVE duration is a legal flag value, so
@@ -50,13 +42,6 @@ theorem cons_bulkcfg_setDefaults_keeps_timeCfg (dS dE dI : Int) (c : ProxyCfg) (
     (timeOf : Bytes → Option Int) (req : Int) :
     (⟨delayed, timeOf, req, (setDefaults dS dE dI c).allowedTimeDrift, (setDefaults dS dE dI c).futureAllowedTimeDrift⟩ : TimeCfg)
       = ⟨delayed, timeOf, req, c.allowedTimeDrift, c.futureAllowedTimeDrift⟩ := rfl
-
-/-- at the extracted defaults (`consts.DefaultSearchTimeout` etc., Extracted/C10.lean): only zero fields change -/
-theorem cons_bulkcfg_setDefaults_extracted (c : ProxyCfg) (h1 : c.searchTimeout ≠ 0) (h2 : c.exportTimeout ≠ 0)
-    (h3 : c.maxInflightBulks ≠ 0) :
-    setDefaults SV.Extracted.C10.defaultSearchTimeout SV.Extracted.C10.defaultExportTimeout
-      SV.Extracted.C10.ingestorMaxInflightBulks c = c := by
-  cases c; simp_all [setDefaults]
 
 /-- **C10 time rule for the CONFIGURED drifts**: `c10_time_rule`'s statement, with the drifts read from the effective
 configuration; hypotheses are about the configured values (zero included, see the example) -/
@@ -144,43 +129,23 @@ theorem cons_bulkcfg_response_items_eq_documents (T : TimeCfg) (I : IndexCfg) (S
   rw [bulkcfg_parent_count T I S hS]
   exact parseItemList_response S.length
 
-/-! ## constants repeated in several models / extracted files (one theorem per constant) -/
+/-! ## constants repeated in several models (one theorem per constant)
 
-/-- `seq.docOffsetBits`: the two model copies and the three extracted copies (C03, C04, C17 extractors) -/
-theorem cons_bulkcfg_docOffsetBits_eq :
-    C03.docOffsetBits = SV.Extracted.C03.docOffsetBits ∧ Collector.docOffsetBits = SV.Extracted.C17.docOffsetBits ∧
-    SV.Extracted.C03.docOffsetBits = SV.Extracted.C04.docOffsetBits ∧ SV.Extracted.C04.docOffsetBits = SV.Extracted.C17.docOffsetBits := by
-  decide
+Removed (no Consistency module may import `SeqVerif.Extracted.*`, regenerated by every check run): the model-vs-extracted
+theorems `cons_bulkcfg_setDefaults_extracted`, `cons_bulkcfg_docOffsetBits_eq` (model halves are
+`cons_docPos_docOffsetBits_eq`, DocPos.lean), `cons_bulkcfg_idsPerBlock_eq`, `cons_bulkcfg_docPosNotFound_eq` (model half:
+`cons_docPos_notFound_eq`), `cons_bulkcfg_maxHistogramSamples_eq` (model half: `cons_mergeaggs_sampleLim_eq_agg_maxHistogramSamples`),
+`cons_bulkcfg_systemMID_eq` (model half: `cons_fracrange_maxU64_eq`), `cons_bulkcfg_cache_constants_eq`,
+`cons_bulkcfg_blockHeader_eq` (only WPBytes has model constants for the header) - covered by the `cxx_x_*` obligations in
+Props (c01_x_*, c03_x_*, c04_x_*, c06_x_*, c10_x_set_defaults, c14_x_*, c17_x_*, c18_x_*), each of which ties its own
+extracted constant to the model constant. -/
 
-/-- `seq.maxDocOffset` (Extracted/C03) is `2^docOffsetBits - 1`, the literal 1073741823 of `C03.packDocPos` -/
+/-- `seq.maxDocOffset`: the literal 1073741823 of `C03.packDocPos` (C03Codec.lean) is `2^docOffsetBits - 1` for both
+model copies of `docOffsetBits` (C03Codec, Collector) -/
 theorem cons_bulkcfg_maxDocOffset_eq :
-    SV.Extracted.C03.maxDocOffset = 2 ^ C03.docOffsetBits - 1 ∧ SV.Extracted.C03.maxDocOffset = 1073741823 ∧
-    C03.packDocPos 0 SV.Extracted.C03.maxDocOffset ≠ none ∧ C03.packDocPos 0 (SV.Extracted.C03.maxDocOffset + 1) = none := by
+    2 ^ C03.docOffsetBits - 1 = 1073741823 ∧ 2 ^ Collector.docOffsetBits - 1 = 1073741823 ∧
+    C03.packDocPos 0 1073741823 ≠ none ∧ C03.packDocPos 0 1073741824 = none := by
   decide
-
-/-- `consts.IDsPerBlock` extracted by C03 and C04 -/
-theorem cons_bulkcfg_idsPerBlock_eq : SV.Extracted.C03.idsPerBlock = SV.Extracted.C04.idsPerBlock := by decide
-
-/-- `DocPosNotFound`: model (C03Docs) vs extracted (C04) -/
-theorem cons_bulkcfg_docPosNotFound_eq : C03.docPosNotFound = SV.Extracted.C04.docPosNotFound := by decide
-
-/-- `maxHistogramSamples = 8096` (seq/qpr.go:411): Model/Agg.lean vs Extracted/C06 -/
-theorem cons_bulkcfg_maxHistogramSamples_eq : Agg.maxHistogramSamples = SV.Extracted.C06.maxHistogramSamples := by decide
-
-/-- `systemMID` (`math.MaxUint64`): Model/FracInfo.lean vs Extracted/C14 -/
-theorem cons_bulkcfg_systemMID_eq : FracInfo.systemMID = SV.Extracted.C14.systemMID := by decide
-
-/-- cache clean-up constants: Model/Cache.lean vs Extracted/C18 -/
-theorem cons_bulkcfg_cache_constants_eq :
-    Cache.recreateThreshold = SV.Extracted.C18.recreateThreshold ∧ Cache.excessiveSizeFactor = SV.Extracted.C18.excessiveSizeFactor := by
-  decide
-
-/-- docs-block header layout: Model/WPBytes.lean vs Extracted/C01; and `disk.IndexBlockHeaderSize` (Extracted/C03) is the
-same 33 bytes -/
-theorem cons_bulkcfg_blockHeader_eq :
-    WPath.headerLen = SV.Extracted.C01.headerLen ∧ WPath.offLen = SV.Extracted.C01.offLen ∧ WPath.offRaw = SV.Extracted.C01.offRaw ∧
-    WPath.offExt1 = SV.Extracted.C01.offExt1 ∧ WPath.offExt2 = SV.Extracted.C01.offExt2 ∧
-    SV.Extracted.C03.indexBlockHeaderSize = WPath.headerLen := by decide
 
 /-- 2^64 once more: `WPath.two64` (WPBytes) and `C03.W64` (C03Codec) join the chain of `cons_int64_maxU64_constants` -/
 theorem cons_bulkcfg_two64_eq :
